@@ -56,6 +56,7 @@ def rat(n):
 
 
 ENUM_SYMS = set()        # symbols that stand for enumerators: two different ones are known to be unequal
+ENUM_VALUE = {}          # their integer values (for comparisons of an enumerator with an integer)
 
 
 INT_RX = re.compile(r"^(const )?(unsigned |signed )?(long long|long|int|short|char|votca::Index|std::size_t|size_t|unsigned)( int)?$")
@@ -199,6 +200,8 @@ class Fold:
                 q = t + "::" + q.rsplit("::", 1)[1]      # scoped enumerator: the exporter's qualified name omits the enum's own name
             v = S(q)
             ENUM_SYMS.add(v)
+            if isinstance(n.get("value"), int):
+                ENUM_VALUE[v] = n["value"]
             return v
         if dk == "global":
             if self.atom_hook:
@@ -303,6 +306,10 @@ class Fold:
     def compare(self, op, a, b):
         if op in ("==", "!=") and a in ENUM_SYMS and b in ENUM_SYMS:
             return sp.true if ((a == b) == (op == "==")) else sp.false
+        if a in ENUM_VALUE and getattr(b, "is_Integer", False):
+            a = sp.Integer(ENUM_VALUE[a])
+        elif b in ENUM_VALUE and getattr(a, "is_Integer", False):
+            b = sp.Integer(ENUM_VALUE[b])
         if getattr(a, "is_number", False) and getattr(b, "is_number", False) and not isinstance(a, (Matrix, tuple)) and not isinstance(b, (Matrix, tuple)):
             r = {"<": a < b, "<=": a <= b, ">": a > b, ">=": a >= b, "==": sp.Eq(a, b), "!=": sp.Ne(a, b)}[op]
             if r in (sp.true, sp.false, True, False):
